@@ -1,1 +1,2 @@
+import Driver.IterData
 import Driver.Slice
